@@ -1,18 +1,14 @@
 """C06 - parameterised rules behave like their expansion."""
-import random
-
-import gen
 import pegcheck
 
 
 def run(chk):
-    chk.rule = ('cases = (grammar, input); grammars enumerated by TLC (MC_C06: element kinds x separator kinds x all '
-                'bound forms 0..3 x bounds read from the input via let / class let-field / template parameter x all '
-                'accepted Sep option vectors x enclosing contexts) plus seeded random core grammars rich in '
-                'repetitions and Sep judged by the same specification; non-trivial = well-formed per the '
-                'specification; distinct by (description, input)')
-    chk.assumptions += ['PegSem!EvalList / EvalSep are the documented meaning of e{m,n} and Sep(...); LawBounds and '
-                        'LawSepShape are model-checked on every member']
+    chk.rule = ('cases = (grammar with templates, input); TLC (MC_C06) enumerates call sites (literal, compound, rule '
+                'name, keyword, number / string / literal-as-value, earlier results incl. an unhashable list, class '
+                'templates, recursive and nested instantiation, arguments mentioning parameters or let-bound names, '
+                'the same template with different arguments at the same position) x {unnamed, named grammar} on all '
+                'inputs up to the bound; non-trivial = matches or fails beyond the offset')
+    chk.assumptions += ['substitution semantics: PegSem binds parser arguments as closures over the call-site '
+                        'environment; LawExpansion (call = textual expansion) is model-checked for closed arguments']
     cases = pegcheck.collect(chk, 'MC_C06', 'MC_C06_' + chk.tier, timeout_s=3000)
-    chk.notes['tlc_enumerated_grammars'] = len(cases)
-    pegcheck.replay(chk, cases, sample_every=20011)
+    pegcheck.replay(chk, cases, sample_every=997)
